@@ -45,6 +45,7 @@ pub fn ff<T: Flt>(v: f64) -> Value {
 }
 
 pub fn ffs<T: Flt>(v: &[f64], max: usize) -> Value {
+    let max = if std::env::var("VERIF_FULL_DESC").is_ok() { usize::MAX } else { max };
     let mut out: Vec<Value> = v.iter().take(max).map(|&x| ff::<T>(x)).collect();
     if v.len() > max {
         out.push(json!(format!("... {} more", v.len() - max)));
